@@ -500,9 +500,20 @@ class _Relay:
                 pass
 
 
-def sync_timeout_ledger(mode: str) -> dict:
+SYNC_LEDGER_CONFIGS = {
+    "distinct": dict(LEDGER_TIMEOUTS),
+    # an absent value means unlimited: whatever an earlier operation left on the socket must not stay in force
+    "no-connect": {"read": 2.2, "write": 3.3},
+    "no-read": {"connect": 1.1, "write": 3.3},
+    "no-write": {"connect": 1.1, "read": 2.2},
+    "connect-only": {"connect": 1.1},
+}
+
+
+def sync_timeout_ledger(mode: str, cfg: str = "distinct") -> dict:
     """mode: direct-http | direct-https | tunnel-https | socks-https. Runs one request through the real
-    SyncBackend with four distinct timeouts and returns the list of (operation, timeout in force on the socket)."""
+    SyncBackend with four distinct timeouts (or with some of them absent) and returns the list of (operation, timeout
+    in force on the socket)."""
     import httpcore._backends.sync as sync_mod
     ledger: list = []
     real_socket = socket
@@ -560,7 +571,7 @@ def sync_timeout_ledger(mode: str) -> dict:
         ctx.sslsocket_class = RecSSLSocket
     saved = sync_mod.socket
     sync_mod.socket = SocketShim()
-    res = {"mode": mode, "ledger": ledger}
+    res = {"mode": mode, "ledger": ledger, "cfg": cfg}
     try:
         proxy = None
         if relay is not None:
@@ -568,7 +579,7 @@ def sync_timeout_ledger(mode: str) -> dict:
         pool = httpcore.ConnectionPool(ssl_context=ctx, proxy=proxy)
         try:
             r = pool.request("POST", f"{'https' if tls else 'http'}://localhost:{srv.port}/", content=b"x" * 2000,
-                             extensions={"timeout": dict(LEDGER_TIMEOUTS)})
+                             extensions={"timeout": dict(SYNC_LEDGER_CONFIGS[cfg])})
             res["status"] = r.status
         except Exception as exc:  # noqa
             res["exc"] = exc
@@ -584,7 +595,8 @@ def sync_timeout_ledger(mode: str) -> dict:
 
 def judge_timeout_ledger(res: dict) -> list:
     """Returns [(operation, timeout seen, timeout expected)] for every operation issued with the wrong timeout."""
-    T = LEDGER_TIMEOUTS
+    cfg_ = SYNC_LEDGER_CONFIGS[res.get("cfg", "distinct")]
+    T = {k: cfg_.get(k) for k in ("connect", "read", "write")}
     socks = res["mode"].startswith("socks")
     bad = []
     seen_handshake = False
